@@ -1,5 +1,6 @@
 from __future__ import annotations
 
+import io
 import json
 from datetime import datetime, timedelta, timezone
 from importlib.util import find_spec
@@ -71,7 +72,11 @@ class AvroWriter(AbstractWriter):
         if self.desc != r._desc:
             raise Exception("Mixed record types")
 
-        self.writer.write(r._packdict())
+        data = r._packdict()
+        # Encode into a scratch buffer first. fastavro appends to its block buffer while it encodes, so a value
+        # that does not fit the schema would otherwise leave half a record behind and corrupt the records around it.
+        fastavro.schemaless_writer(io.BytesIO(), self.parsed_schema, data)
+        self.writer.write(data)
 
     def flush(self):
         if self.writer:
